@@ -288,7 +288,14 @@ def _source_bytes(repo):
     return c07.structural_source_read_as_bytes(repo)
 
 
-STRUCTURAL = [structural_names, _sigkey, _source_bytes]
+def _own_tree(repo):
+    """the tree whose positions are reported and the code lines they are looked up in belong to the same text: a Script
+    parses its own buffer without consulting parso's per-path cache (shared with C08)"""
+    from contracts import c08
+    return [r for r in c08.structural_state(repo) if r['id'] in ('script-parse-no-path-cache', 'parse-options-pass-through')]
+
+
+STRUCTURAL = [structural_names, _sigkey, _source_bytes, _own_tree]
 def _standin(repo, seed, tier):
     from pyvc.standin import run_standin
     return run_standin('C17', tier, seed, repo)
